@@ -153,5 +153,10 @@ mut("v13-parallel-taskerror-missing", "parallel/task.go.tmpl", "			taskEmitter.T
 mut("v13-sweep-ignores-ran", "parallel/parallel.go.tmpl", "			if !t.ran.Load() {\n				t.emitter.TaskSkipped(ctx, err)\n			}", "			t.emitter.TaskSkipped(ctx, err)", ["V13"])
 mut("v13-nop-emitter-always", "flow/task.go.tmpl", "	{{- if .Instrument -}}\n		emitter.TaskInit(", "	{{- if false -}}\n		emitter.TaskInit(", ["V13"])
 mut("v13-success-on-parallel-error-path", "parallel/task.go.tmpl", "			taskEmitter.TaskError(ctx, err)\n			return\n", "			taskEmitter.TaskError(ctx, err)\n", ["V13"])
+
+mut("t2-raw-map-expr", "parallel/map.go.tmpl", "for key, val := range {{ expr .Map }} {", "for key, val := range {{ rawExpr .Map }} {", ["T2"], why="map expression evaluated twice / late")
+mut("t2-bare-slice-expr", "parallel/slice.go.tmpl", "{{ $t }}Slice := {{ expr .Slice }}", "{{ $t }}Slice := {{ .Slice }}", ["T2"])
+mut("t2-prologue-uses-expr-twice", "prologue/param_expr.go.tmpl", "	{{ expr . }} := {{ rawExpr . }}", "	{{ expr . }} := {{ expr . }}", ["T2"])
+mut("t1-new-decision-field", "flow/task.go.tmpl", "	defer {{ $t }}.ran.Store(true)\n", "	{{ if .Function.Sig }}_ = 0{{ end }}\n	defer {{ $t }}.ran.Store(true)\n", ["T1"], why="model drift: new template decision not covered by the product")
 json.dump(M, open(__file__.replace("gen_tmpl.py", "tmpl.json"), "w"), indent=1)
 print(len(M), "mutants")
